@@ -167,6 +167,12 @@ def run(ctx):
                 break
             try:
                 out = d.dump()
+                import io as _io
+                _fd = _io.BytesIO()
+                d.dump(_fd)
+                if _fd.getvalue().decode("utf-8") != out or d.convert_to_text() != out:
+                    raise AssertionError("dump(fd) wrote %r, convert_to_text() gives %r, dump() gives %r"
+                                         % (_fd.getvalue().decode("utf-8", "replace"), d.convert_to_text(), out))
             except Exception as e:
                 ok = t.failed("dump raised %r" % (e,), document=doc, operations=ops) and False
                 break
